@@ -10,7 +10,7 @@ use crate::probe::{Decision, Mode, Probe};
 use crate::statejson::{self, ShapeSpec};
 
 pub const TITLE: &str = "Zero-temperature optimisation never lowers the score";
-pub const RULE: &str = "cases = optimiser configuration with kt_start = 0 x {kt_finish in {None,0,1e-3,0.1,10}} x {kt_ratio in {None,0,0.1,1}} x steps 1..6000 x inner_steps giving 1..30 loops (multiples, non-multiples, inner > steps) x max_step_size 1e-4..1 x convergence {None,0,1e-6,1} x seed, on (a) synthetic states with 2..8 parameters whose score is a generated landscape (concave + ripple + plateaus + an undefined band), (b) synthetic states with a cyclic script of forced outcomes relative to the current score (better, equal, worse, undefined), (c) real hard and Lennard-Jones states of all groups behind a logging probe. Oracle: score of the returned state >= score of the input (exact); and the trace of evaluated parameter vectors must be explained by a history in which only proposals scoring at least the current score are ever kept (a trace model that allows every such history — including ones that reject improvements, which is not this property's concern — and nothing else): if none exists, a worse or undefined proposal was kept. Non-trivial = >= 2 inner loops ran and >= 1 strictly worse proposal was seen after the first loop; distinct by hash of the case.";
+pub const RULE: &str = "cases = optimiser configuration with kt_start = 0 x {kt_finish in {None,0,1e-3,0.1,10}} x {kt_ratio in {None,0,0.1,1}} x steps 1..6000 x inner_steps giving 1..30 loops (multiples, non-multiples, inner > steps) x max_step_size 1e-4..1 x convergence {None,0,1e-6,1} x seed, on (a) synthetic states with 2..8 parameters whose score is a generated landscape (concave + ripple + plateaus + an undefined band), (b) synthetic states with a cyclic script of forced outcomes relative to the current score (better, equal, worse, undefined), (c) real hard and Lennard-Jones states of all groups behind a logging probe, starting from the dilute initial state or from a state compressed by a preceding quench. Oracle: score of the returned state >= score of the input (exact); and the trace of evaluated parameter vectors must be explained by a history in which only proposals scoring at least the current score are ever kept (a trace model that allows every such history — including ones that reject improvements, which is not this property's concern — and nothing else): if none exists, a worse or undefined proposal was kept. Non-trivial = >= 2 inner loops ran and >= 1 strictly worse proposal was seen after the first loop; distinct by hash of the case.";
 
 pub fn assumptions() -> Vec<&'static str> {
     vec![
@@ -186,19 +186,26 @@ pub struct RealCase {
     pub group: usize,
     pub shape: ShapeSpec,
     pub lj: bool,
+    /// steps of a preceding quench that compresses the initial state (0 = start from the dilute initial state)
+    #[serde(default)]
+    pub warm: u64,
 }
 
 fn real_strat(_: &Ctx) -> BoxedStrategy<RealCase> {
     (kt_zero_cfg(2500, 12), 0usize..7, any::<bool>())
         .prop_flat_map(|(cfg, group, lj)| {
             let shape = if lj { crate::gen::mol_shape_spec() } else { prop_oneof![crate::gen::line_shape_spec(), crate::gen::mol_shape_spec()].boxed() };
-            (Just(cfg), Just(group), shape, Just(lj))
+            (Just(cfg), Just(group), shape, Just(lj), prop_oneof![Just(0u64), Just(2000u64), Just(6000u64)])
         })
-        .prop_map(|(cfg, group, shape, lj)| RealCase { cfg, group, shape, lj })
+        .prop_map(|(cfg, group, shape, lj, warm)| RealCase { cfg, group, shape, lj, warm })
         .boxed()
 }
 
-fn run_real<S: State>(state: S, cfg: &OptCfg) -> Result<RunOut, String> {
+fn run_real<S: State + Serialize + serde::de::DeserializeOwned>(state: S, cfg: &OptCfg, warm: u64) -> Result<RunOut, String> {
+    if !state.score().map(|s| s.is_finite()).unwrap_or(false) {
+        return Err("skip".to_string());
+    }
+    let state = crate::opt::warm_start(state, warm, cfg.seed ^ 0x5eed).map_err(|_| "skip".to_string())?;
     let s0 = match state.score() {
         Some(s) if s.is_finite() => s,
         _ => return Err("skip".to_string()),
@@ -231,16 +238,16 @@ fn real_oracle(c: &RealCase, rec: &Rec, _: &Ctx) -> Result<(), String> {
     let wg = statejson::wg(c.group);
     let out = if c.lj {
         let shape = statejson::lj_shape(&c.shape).ok_or("shape")?;
-        run_real(packing::PotentialState::from_group(shape, &wg).map_err(|e| e.to_string())?, &c.cfg)
+        run_real(packing::PotentialState::from_group(shape, &wg).map_err(|e| e.to_string())?, &c.cfg, c.warm)
     } else {
         match &c.shape {
             ShapeSpec::Polygon { .. } | ShapeSpec::Radial { .. } => {
                 let shape = statejson::line_shape(&c.shape).ok_or("shape")?;
-                run_real(packing::PackedState::from_group(shape, &wg).map_err(|e| e.to_string())?, &c.cfg)
+                run_real(packing::PackedState::from_group(shape, &wg).map_err(|e| e.to_string())?, &c.cfg, c.warm)
             }
             _ => {
                 let shape = statejson::mol_shape(&c.shape).ok_or("shape")?;
-                run_real(packing::PackedState::from_group(shape, &wg).map_err(|e| e.to_string())?, &c.cfg)
+                run_real(packing::PackedState::from_group(shape, &wg).map_err(|e| e.to_string())?, &c.cfg, c.warm)
             }
         }
     };
